@@ -26,6 +26,12 @@ fn extra_only(exp: &Value, got: &Value) -> Option<Vec<String>> {
         let g = got[part].as_object().cloned().unwrap_or_default();
         for (k, v) in e.iter() {
             if g.get(k) != Some(v) {
+                // a namespace the leader lists under its id (in use, its user entry deleted) while the follower still
+                // holds the user entry with its name: the deleted user namespace survived the install
+                if part == "ns" && v.as_str() == Some(k.as_str()) && g.contains_key(k) {
+                    extra.push(format!("ns:{}(user entry)", k));
+                    continue;
+                }
                 return None;
             }
         }
@@ -140,7 +146,7 @@ fn run_one(i: usize, b: &Value) -> anyhow::Result<Value> {
                     }
                 } else if op == "fecho" {
                     // the follower routed a publish to the leader and echoes the value (ConfigCmd::SetTmpValue)
-                    let r = f.call(&json!({"op":"cfg_tmp","data_id":s["k"],"group":crate::smreplay::GROUP,"value":s["v"]}))?;
+                    let r = f.call(&json!({"op":"cfg_tmp","data_id":s["k"],"group":crate::smreplay::GROUP,"tenant":crate::smreplay::cfg_tenant(s["k"].as_str().unwrap_or("")),"value":s["v"]}))?;
                     if r["res"] != "ok" {
                         fail!(k, "follower echo failed", json!("ok"), r);
                     }
